@@ -216,6 +216,62 @@ def run(ctx, rep):
             enames = [x.get("vname") for _, x in tb.walk(first_if["else"]) if x["k"] == "Adt"] if first_if.get("else") is not None else []
             ok = ok and "FeeId" in tnames and "GbtLink" in enames
         rep.check(ok, "R6.3", "R6.3|dispatch_by_table", "dispatch by FEE ID iff `check all its-stave`, by GBT link otherwise", nw, "constructor condition atoms: %s" % alltxt[:200])
+    # ---------- R6.6 the dispatcher keeps no per-stream state that steers routing or seeds a validator
+    vd_adt = VD.rsplit("::<", 1)[0]
+    adt = f.adts.get(vd_adt)
+    if adt:
+        fields = [fd["name"] for fd in adt["variants"][0]["fields"]]
+        ROUTING = {"processors", "process_channels", "validator_thread_handles"}
+        role = sorted(p_ for p_ in reach if p_.startswith(VD) and f.fns[p_].get("mir")
+                      and any(p_.startswith(VD + r) for r in ("dispatch_cdp_batch", "dispatch_by_id", "init_validator")))
+        rep.floor("R6.6-role", len(role), 4, "dispatch-role functions of ValidatorDispatcher (incl. closures)")
+
+        def proj_fields(pl):
+            return [x[2] for x in pl.get("p", []) if isinstance(x, list) and x[0] == "f" and len(x) > 2 and x[2] in fields]
+
+        written = {}
+        for p_ in role:
+            b = cg.body(p_)
+            for i, j, st in b.stmts():
+                if st["k"] != "assign":
+                    continue
+                if st["lhs"]["l"] == 1:
+                    for fl in proj_fields(st["lhs"]):
+                        written.setdefault(fl, set()).add(p_)
+                rv = st["rv"]
+                if rv["k"] in ("ref", "rawptr") and rv.get("bk") not in ("shared", "fake") and rv["pl"]["l"] == 1:
+                    for fl in proj_fields(rv["pl"]):
+                        written.setdefault(fl, set()).add(p_)
+        state = sorted(set(written) - ROUTING)
+        flows = []
+        for p_ in role:
+            b = cg.body(p_)
+            for bb in b.live_blocks():
+                t = b.blocks[bb]["t"]
+                if t["k"] == "switch":
+                    so = show_origin(b.origin(t["d"]))
+                    for m in state:
+                        if "." + m in so:
+                            flows.append("%s: branch on self.%s" % (p_.split("::")[-1], m))
+                elif t["k"] == "call":
+                    cal = callee_of(t)[0] if callee_of(t) else None
+                    if not cal or not (cal.startswith(LV) or "crossbeam_channel" in cal or cal.endswith("<impl [T]>::get") or "thread" in cal):
+                        continue
+                    for a in t["args"]:
+                        so = show_origin(b.origin(a))
+                        for m in state:
+                            if "." + m in so:
+                                flows.append("%s: self.%s flows into %s" % (p_.split("::")[-1], m, cal.split("::")[-1]))
+        rep.check(not flows, "R6.6", "R6.6|dispatcher_state", "fields written while dispatching: %s; none besides the routing tables steers a send or reaches a validator" % sorted(written), VD,
+                  "the dispatcher carries state across packets of different links (%s) that steers routing or is handed to a validator: %s" % (state, sorted(set(flows))))
+        # the freshly built validator is only moved into its thread
+        dbi_b = cg.body(VD + "dispatch_by_id") if VD + "dispatch_by_id" in f.fns else None
+        if dbi_b is not None:
+            lvcalls = sorted(set(cal.split("::")[-1] for bb, t, cal, c in dbi_b.calls() if cal and cal.startswith(LV)))
+            rep.check(not lvcalls, "R6.6", "R6.6|validator_untouched", "dispatch_by_id calls no LinkValidator method on the new validator before moving it into its thread", VD,
+                      "dispatch_by_id calls LinkValidator::%s on the new validator: state decided by another link's packet can be planted in it" % lvcalls)
+    else:
+        rep.missing("R6.6", vd_adt)
     # ---------- R6.4 validator consumes in order
     run_ = LV + "::<T, C>::run"
     if run_ in f.fns:
